@@ -69,6 +69,9 @@ pub enum Source {
     BinZero,
     /// a stale value
     BinWrong,
+    /// hand-built > 65535-op records whose `CG` field is first / in the middle / last among the aux
+    /// fields (the format does not say where `CG` goes; noodles and htslib append it)
+    AuxOrder,
 }
 
 impl Source {
@@ -77,6 +80,7 @@ impl Source {
             Source::Own => "noodles-written",
             Source::BinZero => "foreign(bin=0)",
             Source::BinWrong => "foreign(bin-stale)",
+            Source::AuxOrder => "foreign(aux-order)",
         }
     }
 }
@@ -86,7 +90,7 @@ pub fn source_file(header: &sam::Header, recs: &[GRec], source: Source) -> Resul
     let bufs: Vec<RecordBuf> = recs.iter().map(build_record).collect();
     let dynr: Vec<&dyn sam::alignment::Record> = bufs.iter().map(|r| r as &dyn sam::alignment::Record).collect();
     let mut bytes = write_bam(header, &dynr, Container::Raw).map_err(|e| format!("{}: {}", e.step, e.err))?;
-    if source == Source::Own {
+    if source == Source::Own || source == Source::AuxOrder {
         return Ok(bytes);
     }
     // walk the stream by hand and patch the bin field (offset 10..12 of each record body)
@@ -231,6 +235,17 @@ fn raw_diff(a: &[u8], b: &[u8]) -> String {
 /// Checks one lazy record against one destination header. `want` is the model of the record,
 /// `n_dst` the destination's dictionary size. Returns how many entry points accepted it.
 pub fn check_one(lazy: &bam::Record, want: &GRec, dst: &sam::Header, n_dst: usize) -> Result<usize, Fail> {
+    check_one_with(lazy, want, dst, n_dst, false)
+}
+
+/// `aux_as_map`: compare the aux fields as a tag -> value map (resolving `CG` may reorder fields).
+pub fn check_one_with(lazy: &bam::Record, want: &GRec, dst: &sam::Header, n_dst: usize, aux_as_map: bool) -> Result<usize, Fail> {
+    let sort = |mut g: GRec| {
+        if aux_as_map {
+            g.aux.sort_by(|a, b| a.0.cmp(&b.0));
+        }
+        g
+    };
     let outs: Vec<(Entry, io::Result<Vec<u8>>)> =
         [Entry::WriteRecord, Entry::WriteAlignmentLazy, Entry::WriteAlignmentBuf].into_iter().map(|e| (e, write_one(e, dst, lazy))).collect();
     // (1) every accepted output is a well-formed record that decodes to the record that was read
@@ -240,7 +255,7 @@ pub fn check_one(lazy: &bam::Record, want: &GRec, dst: &sam::Header, n_dst: usiz
             Ok(bytes) => {
                 let raw = raw_of(bytes).map_err(|m| Fail { what: format!("entry={}", e.name()), field: "layout".into(), expected: "one length-prefixed record".into(), observed: m })?;
                 let (d, _) = raw.decode().map_err(|m| Fail { what: format!("entry={}", e.name()), field: "record".into(), expected: "decodable by SAMv1 §4.2".into(), observed: m })?;
-                if let Some((f, a, b)) = diff(&norm_bam(want), &d) {
+                if let Some((f, a, b)) = diff(&sort(norm_bam(want)), &sort(d)) {
                     return Err(Fail { what: format!("entry={} symptom=output-differs-from-record", e.name()), field: f, expected: a, observed: b });
                 }
             }
@@ -284,4 +299,97 @@ pub fn check_one(lazy: &bam::Record, want: &GRec, dst: &sam::Header, n_dst: usiz
         }
     }
     Ok(outs.iter().filter(|(_, o)| o.is_ok()).count())
+}
+
+fn encode_aux(tag: &[u8; 2], v: &crate::model::GVal) -> Vec<u8> {
+    use crate::model::GVal::*;
+    let mut o = tag.to_vec();
+    match v {
+        A(c) => o.extend([b'A', *c]),
+        I8(n) => o.extend([b'c', *n as u8]),
+        U8(n) => o.extend([b'C', *n]),
+        I16(n) => {
+            o.push(b's');
+            o.extend(n.to_le_bytes())
+        }
+        U16(n) => {
+            o.push(b'S');
+            o.extend(n.to_le_bytes())
+        }
+        I32(n) => {
+            o.push(b'i');
+            o.extend(n.to_le_bytes())
+        }
+        U32(n) => {
+            o.push(b'I');
+            o.extend(n.to_le_bytes())
+        }
+        Z(s) => {
+            o.push(b'Z');
+            o.extend(s);
+            o.push(0)
+        }
+        BU16(a) => {
+            o.extend([b'B', b'S']);
+            o.extend((a.len() as u32).to_le_bytes());
+            for x in a {
+                o.extend(x.to_le_bytes());
+            }
+        }
+        BU32(a) => {
+            o.extend([b'B', b'I']);
+            o.extend((a.len() as u32).to_le_bytes());
+            for x in a {
+                o.extend(x.to_le_bytes());
+            }
+        }
+        other => panic!("encode_aux: {} not needed by the harness", other.type_code()),
+    }
+    o
+}
+
+/// A raw BAM stream (header `header`) holding hand-built variants of one 65536-op record that differ in
+/// where `CG` sits among the aux fields. Returns the bytes and (label, model) per record.
+pub fn aux_order_file(header: &sam::Header) -> Result<(Vec<u8>, Vec<(&'static str, GRec)>), String> {
+    use crate::model::GVal;
+    let long = source_records(true).into_iter().find(|(l, _)| *l == "65536-ops").ok_or("no long record")?.1;
+    let base = GRec { aux: vec![], ..long };
+    let own = source_file(header, std::slice::from_ref(&base), Source::Own)?;
+    let head_len = source_file(header, &[], Source::Own)?.len();
+    let body = &own[head_len + 4..];
+    let raw = rawbam::parse_record(body)?;
+    let aux_off = 32 + raw.l_read_name as usize + 4 * raw.n_cigar_op as usize + (raw.l_seq as usize).div_ceil(2) + raw.l_seq as usize;
+    let (prefix, cg) = body.split_at(aux_off);
+    if cg.get(..4) != Some(b"CGBI") {
+        return Err("the noodles-written long record does not end in CG:B,I".into());
+    }
+    let nh = (*b"NH", GVal::U8(1));
+    let rg = (*b"RG", GVal::Z(b"rg0".to_vec()));
+    let xs = (*b"XS", GVal::I32(-5));
+    let xb = (*b"XB", GVal::BU16(vec![1, 2, 65535]));
+    let variants: Vec<(&'static str, Vec<Option<&([u8; 2], GVal)>>)> = vec![
+        ("65536-ops,aux=CG,NH,RG,XS", vec![None, Some(&nh), Some(&rg), Some(&xs)]),
+        ("65536-ops,aux=NH,CG,RG,XS", vec![Some(&nh), None, Some(&rg), Some(&xs)]),
+        ("65536-ops,aux=NH,RG,XS,CG", vec![Some(&nh), Some(&rg), Some(&xs), None]),
+        ("65536-ops,aux=NH,XB:B:S,CG,RG", vec![Some(&nh), Some(&xb), None, Some(&rg)]),
+    ];
+    let mut bytes = own[..head_len].to_vec();
+    let mut models = Vec::new();
+    for (label, order) in variants {
+        let mut rec = prefix.to_vec();
+        let mut aux = Vec::new();
+        for f in order {
+            match f {
+                None => rec.extend_from_slice(cg),
+                Some((t, v)) => {
+                    rec.extend(encode_aux(t, v));
+                    aux.push((*t, v.clone()));
+                }
+            }
+        }
+        bytes.extend((rec.len() as u32).to_le_bytes());
+        bytes.extend(rec);
+        models.push((label, GRec { aux, ..base.clone() }));
+    }
+    Ok((bytes, models))
 }
